@@ -80,6 +80,11 @@ def subharnesses(tier):
                          {'kind': 'finished', 'batch': bs, 'crash': crash}))
     for n in (0, 1, 3, 4, 5):
         subs.append(('prune-%d' % n, {'kind': 'prune', 'n': n}))
+    for bs in (1, 2, 3, 4, 6):
+        for crash in (False, True):
+            subs.append(('server-trace-batch%d-%s' % (bs, 'crash' if crash
+                                                      else 'run'),
+                         {'kind': 'server', 'batch': bs, 'crash': crash}))
     return subs
 
 
@@ -189,6 +194,67 @@ def _finished(S, spec):
                     S.z(mt) < S.z(VT.now) - EXPIRES, {'instance': inst})
 
 
+SRV_EVENTS = [('host1', 100, 'm,server_state,up'),
+              ('host1', 300, 'm,server_state,down'),
+              ('host2', 200, 'm,server_blackout,'),
+              ('host2', 250, 'm,server_blackout_cleared,'),
+              ('host3', 50, 'm,server_state,frozen')]
+
+
+def _server(S, spec):
+    """cleanup_server_trace archives whole batches, oldest first; every event
+    stays live or retrievable, also when the archiver stops at any write."""
+    import zlib, sqlite3, tempfile, os
+    from treadmill.trace.server import zk as szk
+    tree = memzk.Tree()
+    zk = memzk.Client(tree, 1)
+    for p in ('/server-trace', '/server-trace.history'):
+        tree.seed(p)
+    pre = {}
+    order = list(range(len(SRV_EVENTS)))
+    for k in order:
+        host, ts, rest = SRV_EVENTS[k]
+        shard = '%04X' % (sum(map(ord, host)) % 256)
+        name = '%s,%s,%s' % (host, ts, rest)
+        path = '/server-trace/%s/%s' % (shard, name)
+        tree.seed(path, b'')
+        pre[path] = (ts, name)
+    _run_with_crash(S, tree,
+                    lambda: szk.cleanup_server_trace(zk, spec['batch']),
+                    spec['crash'])
+    S.reach('archived')
+    archived = set()
+    for sn in tree.children('/server-trace.history'):
+        data = tree.nodes['/server-trace.history/' + sn].data
+        with tempfile.NamedTemporaryFile(delete=False, mode='wb') as f:
+            f.write(zlib.decompress(data))
+        conn = sqlite3.connect(f.name)
+        for row in conn.execute('SELECT name FROM %s' %
+                                szk.SERVER_TRACE_SOW_TABLE):
+            archived.add(row[0])
+        conn.close()
+        os.unlink(f.name)
+        S.reach('snapshot_written')
+    live_ts = []
+    gone_ts = []
+    for path, (ts, name) in pre.items():
+        live = path in tree.nodes
+        S.check('C18:server_event_neither_live_nor_in_a_snapshot',
+                live or name in archived, {'event': name})
+        (live_ts if live else gone_ts).append(ts)
+        if not live:
+            S.reach('event_archived')
+    if not spec['crash']:
+        # oldest first, whole batches only
+        S.check('C18:server_trace_archived_out_of_order',
+                not gone_ts or not live_ts or max(gone_ts) < min(live_ts),
+                {'archived': sorted(gone_ts), 'live': sorted(live_ts)})
+        S.check('C18:server_trace_partial_batch_archived',
+                len(gone_ts) % spec['batch'] == 0 and
+                len(live_ts) < spec['batch'],
+                {'archived': len(gone_ts), 'live': len(live_ts)})
+
+
 def _prune(S, spec):
     from treadmill.trace.app import zk as tzk
     tree = memzk.Tree()
@@ -216,7 +282,8 @@ def _prune(S, spec):
 def harness(S, spec):
     import logging
     logging.disable(logging.CRITICAL)
-    {'trace': _trace, 'finished': _finished, 'prune': _prune}[spec['kind']](
+    {'trace': _trace, 'finished': _finished, 'prune': _prune,
+     'server': _server}[spec['kind']](
         S, spec)
 
 
@@ -227,7 +294,8 @@ META = {
         'trace.app.zk.cleanup_trace', 'trace.app.zk.cleanup_finished',
         'trace.app.zk.cleanup_trace_history / cleanup_finished_history',
         'trace._zk.upload_batch', 'trace._zk.download_batch',
-        'trace._zk.cleanup', 'zkutils.create / ensure_deleted / with_retry'],
+        'trace._zk.cleanup', 'trace.server.zk.cleanup_server_trace',
+        'zkutils.create / ensure_deleted / with_retry'],
     'reach_required': ['archived', 'snapshot_written', 'event_archived',
                        'crashed', 'pruned'],
 }
